@@ -200,8 +200,10 @@ def gen(tier, seed):
     return out
 
 
-def classify(init, q, kind):
+def classify(init, q, kind, stored_basis=None):
     rp, rl, rm = init[:3]
+    if stored_basis is not None:          # the loading basis the isotherm is stored in NOW (the history may have converted it)
+        rl = (stored_basis, None)
     if kind == 'accessor-vs-permanent' and rl[0] in ('fraction', 'percent') and q[0] in ('loading', 'loading_at', 'pressure_at'):
         mu, mb = (q[4], q[5]) if q[0] == 'loading' else (q[9], q[10])
         if mu or mb:
@@ -278,8 +280,8 @@ def explore(rep, tier, seed, judge=True):
             if not judge:
                 continue
             # ---- property oracle on the implementation
-            def fail(kind, what, extra=None):
-                rep.failure(classify(init, q, kind), what, {'init': list(init), 'query': list(q), 'kind': kind, 'observed': [oc, vals[:6]], 'extra': extra})
+            def fail(kind, what, extra=None, stored_basis=None):
+                rep.failure(classify(init, q, kind, stored_basis), what, {'init': list(init), 'query': list(q), 'history': [list(x) for x in qs[:qi]], 'kind': kind, 'observed': [oc, vals[:6]], 'extra': extra})
             if q[0] in ('pressure', 'loading') and oc == 'Ok':
                 lim = q[-1]
                 full = rr[2][1] if len(rr) > 2 else vals
@@ -302,6 +304,7 @@ def explore(rep, tier, seed, judge=True):
                     for qq in qs[:qi]:
                         if qq[0] == 'conv':
                             c02.do_call(twin, qq[1])
+                    stored_now = twin.loading_basis
                     try:
                         if q[0] == 'pressure':
                             twin.convert_pressure(mode_to=q[3], unit_to=q[2])
@@ -315,7 +318,7 @@ def explore(rep, tier, seed, judge=True):
                     except Exception as e:  # noqa
                         good, want = False, repr(e)
                     if not good:
-                        fail('accessor-vs-permanent', '%r differs from converting a copy permanently and reading it natively' % (q,), extra=str(want)[:300])
+                        fail('accessor-vs-permanent', '%r differs from converting a copy permanently and reading it natively' % (q,), extra=str(want)[:300], stored_basis=stored_now)
                     elif any(x is not None for x in q[2:-1]):
                         nontrivial.add((init[:3], q[0], q[2:-1]))
             if q[0] in ('loading_at', 'pressure_at'):
